@@ -202,6 +202,46 @@ def promotion_table(res, name, be):
                      f'{be["dtype_of"](flat)}')
 
 
+def promotion_sets(res, name, be, tier):
+    """"their common promoted dtype": for three leaves of ANY three dtypes of the backend (the chain and the
+    ones off it: unsigned, half precision, ...) in ANY order, the dtype of the flat array is the backend's
+    own n-ary promotion of the set - in particular it does not depend on the order of the leaves - and the
+    values are the leaves' values in that dtype"""
+    import functools
+    dts = list(be['chain']) + list(be.get('extra', []))
+    if name == 'numpy':
+        nary = lambda ds: np.result_type(*[np.dtype(d) for d in ds])          # noqa: E731
+    elif name == 'jax':
+        import jax.numpy as jnp
+        nary = lambda ds: np.dtype(jnp.result_type(*ds))                       # noqa: E731
+    else:
+        import torch
+        nary = lambda ds: functools.reduce(torch.promote_types, ds)           # noqa: E731
+    by_set = {}
+    for trip in itertools.product(range(len(dts)), repeat=3):
+        if tier == 'quick' and name != 'numpy' and len(set(trip)) < 3 and trip[0] != trip[1]:
+            continue
+        leaves = [be['mk'](np.ones(sh, dtype=np.int64), dts[i]) for i, sh in zip(trip, ((2,), (), (1, 2)))]
+        res.evaluations += 1
+        flat, unravel = be['ravel']({'a': leaves[0], 'b': [leaves[1], leaves[2]]})
+        got = be['dtype_of'](flat)
+        case = f'{name}: leaf dtypes {[str(dts[i]) for i in trip]}'
+        want = nary([dts[i] for i in trip])
+        if got != want:
+            res.fail(f'{name}: the flat array is not in the common promoted dtype of the leaves', case, f'{got} vs {want}')
+        key = frozenset(trip)
+        if key in by_set and by_set[key][0] != got and len(set(trip)) == len(key) == len(set(by_set[key][1])):
+            res.fail(f'{name}: the promoted dtype depends on the order of the leaves', case, f'{got} vs {by_set[key][0]} for {by_set[key][1]}')
+        by_set.setdefault(key, (got, trip))
+        vals = be['tonp'](flat)
+        if vals.shape != (5,) or not (vals == 1).all():
+            res.fail(f'{name}: values changed by the conversion to the promoted dtype', case, repr(vals))
+        back = world.attempt(lambda: unravel(flat))
+        if back[0] != 0 or [str(be['dtype_of'](x)) for x in optree.tree_leaves(back[1])] != [str(be['dtype_of'](x)) for x in leaves]:
+            res.fail(f'{name}: unravel(ravel(t)) does not restore the leaf dtypes', case, back if back[0] else '')
+    res.count(f'{name}_promotion_triples', len(by_set))
+
+
 def run(res, tier, seed):
     rng = random.Random(seed * 1000003 + 20)
     bes = backends()
@@ -211,6 +251,7 @@ def run(res, tier, seed):
             res.notes.append(f'{name} backend unavailable: {bes.get(name + "_error")}')
             continue
         promotion_table(res, name, bes[name])
+        promotion_sets(res, name, bes[name], tier)
         check_backend(res, name, bes[name], rng, n)
     res.sample('ravel cases: random trees (tuple/list/dict/OrderedDict/namedtuple/deque/None) of arrays with shapes '
                + str(SHAPES) + ' over each backend dtype chain')
